@@ -22,7 +22,8 @@ associate):
 * pixels  `df2[name+"1"] * df2[name+"2"] * df2[field]`         = `(w1 * w2) * raw`
 * dump    `df["weight1"] * df["weight2"] * chunk["count"]`     = `(w1 * w2) * raw`
 -/
-namespace Cooler
+namespace Cooler.Bal
+open Cooler
 
 /-- the float operations the balanced read uses; `ρ` is the stored value type of the field -/
 structure Ops (ρ α : Type) where
@@ -220,4 +221,53 @@ def pixelsSpec {ρ α : Type} (o : Ops ρ α) (w : List α) (div : Bool) (raw : 
     | some v => .ok v
     | none => .error .index) raw
 
-end Cooler
+/-! ### the property as a decidable contract on an observed result
+
+The property fixes the three *factors* of every value (the raw value, the weight of the row bin, the
+weight of the column bin), not the order or bracketing in which an implementation multiplies them.
+`products3` lists every product using each factor exactly once; the contract accepts a value iff it
+equals one of them under the supplied equality (`eqv` = same bit pattern, any NaN = any NaN, in the
+driver).  The bracketing the code uses today is the one `balancedDense` … compute (theorems
+`dense_spec`, `sparse_spec`, `pixels_spec`); theorems `dense_contract` … show it meets the contract. -/
+
+/-- 3! orders × 2 bracketings -/
+def products3 {ρ α : Type} (o : Ops ρ α) (x a b : α) : List α :=
+  [o.mul (o.mul a b) x, o.mul a (o.mul b x), o.mul (o.mul b a) x, o.mul b (o.mul a x),
+   o.mul (o.mul a x) b, o.mul a (o.mul x b), o.mul (o.mul x a) b, o.mul x (o.mul a b),
+   o.mul (o.mul b x) a, o.mul b (o.mul x a), o.mul (o.mul x b) a, o.mul x (o.mul b a)]
+
+/-- `v` is the raw value `x` times the weights of bins `a` and `b` -/
+def cellOk {ρ α : Type} (o : Ops ρ α) (eqv : α → α → Bool) (w : List α) (div : Bool) (a b : Nat) (x : ρ) (v : α) : Bool :=
+  match wtAt o w div a, wtAt o w div b with
+  | some wa, some wb => (products3 o (o.ofRaw x) wa wb).any fun p => eqv v p
+  | _, _ => false
+
+/-- dense form: same shape as the raw array, every cell `(r, c)` balanced with bins `(i0+r, j0+c)` -/
+def denseOk {ρ α : Type} (o : Ops ρ α) (eqv : α → α → Bool) (w : List α) (div : Bool) (i0 j0 : Nat)
+    (raw : List (List ρ)) (out : List (List α)) : Bool :=
+  out.length == raw.length &&
+  (List.range raw.length).all fun r =>
+    match raw[r]?, out[r]? with
+    | some row, some orow =>
+      orow.length == row.length &&
+      (List.range row.length).all fun c =>
+        match row[c]?, orow[c]? with
+        | some x, some v => cellOk o eqv w div (i0 + r) (j0 + c) x v
+        | _, _ => false
+    | _, _ => false
+
+/-- sparse form: entry by entry (both lists in the same order), same coordinates, balanced value -/
+def sparseOk {ρ α : Type} (o : Ops ρ α) (eqv : α → α → Bool) (w : List α) (div : Bool) (i0 j0 : Nat)
+    (raw : List (Nat × Nat × ρ)) (out : List (Nat × Nat × α)) : Bool :=
+  out.length == raw.length &&
+  (raw.zip out).all fun p =>
+    p.2.1 == p.1.1 && p.2.2.1 == p.1.2.1 &&
+      cellOk o eqv w div (i0 + p.1.1) (j0 + p.1.2.1) p.1.2.2 p.2.2.2
+
+/-- pixel form / dump: row by row, the `balanced` value of the row `(bin1, bin2, x)` -/
+def pixelsOk {ρ α : Type} (o : Ops ρ α) (eqv : α → α → Bool) (w : List α) (div : Bool)
+    (raw : List (Nat × Nat × ρ)) (out : List α) : Bool :=
+  out.length == raw.length &&
+  (raw.zip out).all fun p => cellOk o eqv w div p.1.1 p.1.2.1 p.1.2.2 p.2
+
+end Cooler.Bal
